@@ -284,6 +284,15 @@ func runC19(t *rapid.T) {
 	}
 }
 
+// earlier holds the frames ReadSQL returned earlier in this process (a few of
+// them) with the observation taken when they were returned: a frame read from
+// a result set must stay what it was when later result sets are read.
+var earlier []struct {
+	f   qframe.QFrame
+	dig uint64
+	o   *obs.Frame
+}
+
 func readBack(t *rapid.T, tr *c19Trace, tx *sql.Tx, readConf []qsql.ConfigFunc, src *obs.Frame, which string) bool {
 	var got qframe.QFrame
 	var rpanic interface{}
@@ -291,6 +300,23 @@ func readBack(t *rapid.T, tr *c19Trace, tx *sql.Tx, readConf []qsql.ConfigFunc, 
 		defer func() { rpanic = recover() }()
 		got = qframe.ReadSQL(tx, readConf...)
 	}()
+	for _, e := range earlier {
+		if obs.Digest(e.f) != e.dig {
+			tr.Expected, tr.Observed = e.o, obs.Of(e.f)
+			core.Violation(t, "C19:readsql:earlier-frame-changed", "a frame returned by an earlier ReadSQL changed when another result set was read: "+obs.Diff(e.o, obs.Of(e.f)), tr)
+			return false
+		}
+	}
+	if got.Err == nil {
+		if len(earlier) >= 3 {
+			earlier = earlier[1:]
+		}
+		earlier = append(earlier, struct {
+			f   qframe.QFrame
+			dig uint64
+			o   *obs.Frame
+		}{got, obs.Digest(got), obs.Of(got)})
+	}
 	if rpanic != nil {
 		core.Violation(t, "C19:panic:readsql:"+which, fmt.Sprint("ReadSQL panicked: ", rpanic), tr)
 		return false
